@@ -516,6 +516,14 @@ def unterminatedCheck (d : BlockDef) (mt : Match) (reader : Reader) : M Unit :=
     errorCallback ("unterminated ".toList ++ d.name ++ " block: ".toList ++ mt.whole)
   else pure ()
 
+/-- the block's expansion options: those of the definition overridden by the pending Block Attributes options; a
+    pending `-specials` is not valid in a non-zero safe mode (not even left pending by an earlier trusted render) -/
+def blockExpand (d : BlockDef) : M Expand := do
+  let s ← get
+  let expand := d.expand.merge s.opts
+  if s.safeMode != 0 && s.opts.specials == some false then return { expand with specials := d.expand.specials }
+  return expand
+
 /-- The body of `delimitedblocks.render` once definition `d` has matched and been verified, up to (not including)
     the final reset of the consumed block options. -/
 def renderBlockBody (rec : Rec) (env : Env) (d : BlockDef) (mt : Match) (reader : Reader) (writer : Writer) :
@@ -534,7 +542,7 @@ def renderBlockBody (rec : Rec) (env : Env) (d : BlockDef) (mt : Match) (reader 
   unterminatedCheck d mt reader
   let reader := reader.next
   let lines := lines0 ++ content
-  let expand := d.expand.merge (← get).opts
+  let expand ← blockExpand d
   let writer ← if expand.skip != some true then do
       let text0 := join "\n".toList lines
       let text1 ← match d.contentFilter with
